@@ -160,7 +160,7 @@ class mm_reader {
             if (row_beg < 0) row_beg = 0;
             if (row_end < 0) row_end = n;
 
-            precondition(row_beg >= 0 && row_end <= n,
+            precondition(row_beg >= 0 && row_beg <= row_end && row_end <= n,
                     "Wrong subset of rows is requested");
 
             ptrdiff_t _nnz = _symmetric ? 2 * nnz : nnz;
@@ -187,6 +187,10 @@ class mm_reader {
 
                 i -= 1;
                 j -= 1;
+
+                precondition(
+                        0 <= i && i < n && 0 <= j && j < m,
+                        format_error("index is out of range"));
 
                 v = read_value<Val>(is);
 
@@ -268,7 +272,7 @@ class mm_reader {
             if (row_beg < 0) row_beg = 0;
             if (row_end < 0) row_end = n;
 
-            precondition(row_beg >= 0 && row_end <= n,
+            precondition(row_beg >= 0 && row_beg <= row_end && row_end <= n,
                     "Wrong subset of rows is requested");
 
             val.resize((row_end - row_beg) * m);
